@@ -122,6 +122,7 @@ static void sigsvc_execute(const Plan &p, const ExecOpts &, Result &r) {
                     r.cmp();
                     const char *api = entry ? "secp256k1_ecdsa_sign_recoverable" : "secp256k1_ecdsa_sign";
                     for (int o : seq) if (o != O_PASS) { r.faults[std::string("nonce_cb.") + ON[o]]++; }
+                    if (!key_valid || seq.size() > 1 || seq[0] != O_PASS) r.cover.insert("fcell:" + cell);
                     if (!key_valid) r.faults["invalid_key"]++;
                     if (!mon_quiet_since(mk)) { r.violate("C01", "callback", api, cell + ": illegal/error callback: " + g_mon.last_illegal); break; }
                     if ((ret != 0) != exp_ret) { r.violate("C01", "sign_result", api, cell + ": returned " + std::to_string(ret) + ", the model of the retry loop expects " + std::to_string(exp_ret)); break; }
